@@ -91,6 +91,8 @@ struct CConn {
 	bool decode_failed = false;
 	bool is_observer = false;
 	bool ended_this_step = false;
+	bool poisoned = false;   // a truncated frame was sent: nothing meaningful can follow on this stream
+	bool unchecked = false;  // output is not compared with the model any more (slow reader, poisoned stream)
 	std::string ws_key;
 };
 
@@ -308,7 +310,18 @@ public:
 		if (c.client_ended || k.conns[c.kc].daemon_closed) {
 			if (op.kind != END) { vd.stat["noop"]++; return; }
 		}
+		if (c.poisoned && op.kind != END && op.kind != WPLAN && op.kind != DRAIN) { vd.stat["noop"]++; return; }
 		switch (op.kind) {
+		case PARTIAL: {
+			Value r = Value::obj(); r.set("id", Value::str("partial")); r.set("method", Value::str(op.b % 2 ? "info" : "get")); r.set("params", Value::obj());
+			std::string framed = frame_for(c, js::dump(r));
+			size_t cut = (size_t)(((op.a % (int)framed.size()) + (int)framed.size()) % (int)framed.size());
+			if (op.b % 3 == 2 && c.ws && !c.http_done) { framed = handshake_text(c, 0); cut = cut % framed.size(); } // (handshake already sent: extra header bytes)
+			k.send(c.kc, framed.substr(0, cut));
+			c.poisoned = true;
+			vd.labels.insert(cut < 4 ? "partial:in-prefix-or-header" : "partial:in-payload");
+			return;
+		}
 		case END: {
 			if (c.client_ended) { vd.stat["noop"]++; return; }
 			int kind = ((op.a % 3) + 3) % 3 + 1;
@@ -504,7 +517,19 @@ public:
 			codec::WsFrame f; f.opcode = op.a & 0xF; f.fin = op.b & 1; f.masked = (op.b >> 1) & 1; f.rsv = (op.b >> 2) & 7; f.lenenc = ((op.c % 3) + 3) % 3; f.payload = op.s;
 			uint32_t mk = (uint32_t)(op.d * 2654435761u + 77);
 			f.mask[0] = mk; f.mask[1] = mk >> 8; f.mask[2] = mk >> 16; f.mask[3] = mk >> 24;
+			if (!c.ws) { vd.stat["noop"]++; return; }
 			k.send(c.kc, codec::ws_encode(f));
+			{
+				bool control = f.opcode >= 8;
+				bool reserved = (f.opcode >= 3 && f.opcode <= 7) || f.opcode >= 0xB;
+				ModelEvent e; e.conn = ci; e.seq = evs.size(); e.k = ModelEvent::INVALID;
+				bool violation = !f.masked || f.rsv != 0 || reserved || (control && !f.fin) || (control && f.payload.size() > 125);
+				if (violation) { evs.push_back(e); vd.labels.insert("ws:protocol-violation"); }
+				else if (f.opcode == 8) { evs.push_back(e); vd.labels.insert("ws:close-frame"); }
+				else if (f.opcode == 9 || f.opcode == 0xA) vd.labels.insert("ws:ping-pong");
+				else if (f.opcode == 2 || !f.fin || f.opcode == 0) { evs.push_back(e); vd.labels.insert("ws:fragment-or-binary"); } // refused with a close frame
+				else { if (js::parse(f.payload, e.msg)) e.k = ModelEvent::MESSAGE; if (f.payload.size() > max_message_size) e.k = ModelEvent::INVALID; evs.push_back(e); }
+			}
 			return;
 		}
 		default: return;
@@ -623,7 +648,7 @@ public:
 		for (int ci : conns) {
 			CConn &c = cc[ci];
 			if ((size_t)ci == (size_t)probe_conn) continue;
-			bool ended = c.client_ended || c.model_dropped;
+			bool ended = c.client_ended || c.model_dropped || c.unchecked;
 			std::vector<model::Group> groups;
 			auto it = x.by_conn.find(ci);
 			if (it != x.by_conn.end()) groups = it->second;
